@@ -77,8 +77,13 @@ fn sizes_for(kind: Kind, thorough: bool) -> Vec<usize> {
             }
         }
     }
-    for b in [128usize, 192, 256, 4096, 8192, 32768, 65536] {
-        v.extend([b - 1, b, b + 1]);
+    if thorough || kind == Kind::Blob {
+        let bs: &[usize] = if thorough { &[128, 192, 256, 4096, 8192, 32768, 65536] } else { &[256, 4096, 32768, 65536] };
+        for &b in bs {
+            v.extend([b - 1, b, b + 1]);
+        }
+    } else {
+        v.extend([256, 4096, 32768]);
     }
     v.push(70_000);
     if thorough {
@@ -403,11 +408,11 @@ fn eval_truncate(c: &TruncCase) -> Verdict {
 pub fn run(run: &'static Run) {
     let thorough = !run.quick();
     run.rule(
-        "write-read: kinds {blob,tree,commit,tag} x sizes {0,1,2,3, every size with header+body in 62..66 (64-byte header buffer), 2^k-1/2^k/2^k+1 for 128,192,256,4096,8192,32768,65536, 70000; \
-         thorough adds 1024,16384,131072,2^20 (+-1)} x fill {compressible (zeros / 'a'), incompressible LCG bytes (printable for non-blobs)} \
+        "write-read: kinds {blob,tree,commit,tag} x sizes {0,1,2,3, every size with header+body in 62..66 (64-byte header buffer), 70000, and quick: blobs 2^k-1/2^k/2^k+1 for 256,4096,32768,65536, other kinds 256,4096,32768; \
+         thorough: all kinds 2^k(+-1) for 128,192,256,1024,4096,8192,16384,32768,65536,131072,2^20} x fill {compressible (zeros / 'a'), incompressible LCG bytes (printable for non-blobs)} \
          x write path {write_buf, write_stream with reads of all/1/7/4096 bytes (1-byte reads up to 70000 bytes), write(typed object) — one case runs all six and lets git read every distinct file they produce —, \
          git hash-object -w with core.looseCompression default/0 (quick) + 1/9 (thorough)}; \
-         truncate: for the files written by write_buf, git (default) and git level 0: EVERY length 0..file_len-1 (files of objects > 9000 bytes that do not compress are split into 16 ranges, restricted to blobs in quick, and skipped above 140000 bytes); \
+         truncate: for the files written by write_buf, git (default) and git level 0: EVERY length 0..file_len-1 (files of objects > 9000 bytes that do not compress are split into 16 ranges, in quick restricted to the blobs of 32768 and 70000 bytes written by write_buf/git, and skipped above 140000 bytes); \
          non-trivial = object written, id == git's, read back by git and gitoxide / a non-empty range of truncations all refused",
     );
     run.assume("git 2.39.5 hash-object --literally (id oracle), cat-file --batch (reader oracle); non-blob contents are syntactically valid objects padded to the wanted size");
@@ -459,7 +464,8 @@ pub fn run(run: &'static Run) {
                         // megabyte-sized files: every length would mean 10^6 inflations of up to 1 MiB each (not covered)
                         continue;
                     }
-                    if file_big && run.quick() && kind != 0 {
+                    // quick: every-length truncation of big files only for the blobs of 32768 and 70000 bytes written by write_buf and git
+                    if file_big && run.quick() && (kind != 0 || path == "git-l0" || (size != 32768 && size != 70_000)) {
                         continue;
                     }
                     let parts = if file_big { 16 } else { 1 };
